@@ -187,5 +187,9 @@ pub mod model;
 /// harness. Compiled out unless `--cfg rosu_pp_verif` is given.
 #[cfg(rosu_pp_verif)]
 pub mod verif {
-    pub use crate::util::{limited_queue::LimitedQueue, strains_vec::StrainsVec};
+    pub use crate::util::{
+        limited_queue::LimitedQueue,
+        sort::{osu_legacy as sort_osu_legacy, TandemSorter},
+        strains_vec::StrainsVec,
+    };
 }
